@@ -36,6 +36,18 @@ def cases(rng, tier):
         ls2 = ls[:rng.randint(0, len(ls))] + [h]
         yield "ckd %s %s -" % (pub, impl.lst(str, ls2)), "pub-hardened-in-path"
     yield "ckd %s 4294967296 -" % pub, "pub-index-overflow"
+    # sibling parents that differ in exactly ONE field (same key / other chain code, same chain code / other key,
+    # same both / other depth): the result must depend on every input of CKDpub, in one process
+    for _ in range(n // 2):
+        spec, k, chain, depth = rand_parent(rng)
+        cls, key, ch, d, idx, t, fp = neuter(spec, k).split(":")
+        i = rng.choice(NORMAL)
+        ch2 = hx(bytes(rng.getrandbits(8) for _ in range(32)))
+        k2 = rng.randrange(1, N)
+        x2, y2 = point(k2)
+        variants = [(key, ch), (key, ch2), (hx(sec_c(x2, y2)), ch), (key, ch), (key, ch2)]
+        for kk, cc in variants:
+            yield "ckd p:%s:%s:%s:%s:%s:%s %d -" % (kk, cc, d, idx, t, fp, i), "pub-sibling-parents"
 
 
 def nontrivial(line, out):
